@@ -347,6 +347,11 @@ func acceptedPriv(orig *kp, origM, cand, msg []byte) (accepted, same bool, fail 
 		return true, same, fmt.Sprintf("private keys compare Equal (%v/%v) although their public halves differ", e1, e2)
 	}
 	_, _ = k2.Sign(msg) // must not panic
+	// the full equality rule for private keys (privkeys_test.go): Equal <=> the same
+	// signer, in both directions and through KeyEqual
+	if _, fail := privPairRule(viewPriv(orig.priv), viewPriv(k2), msg); fail != "" {
+		return true, same, fail
+	}
 	return true, same, ""
 }
 
